@@ -62,6 +62,8 @@ pub struct PointsObs {
     pub p_nearest_one: OpResult<Vec<(usize, f64)>>,
     pub p_nearest_k: OpResult<Vec<Vec<(usize, f64)>>>,
     pub p_within: OpResult<Vec<Vec<(usize, f64)>>>,
+    /// (len, is_empty) of the full and of the partial tree
+    pub sizes: Option<[(usize, bool); 2]>,
 }
 
 pub struct HullObs {
@@ -623,7 +625,11 @@ fn observe_points<const D: usize>(sim: &Sim, pts: &[[f64; 3]], order: &[usize], 
         OpResult::Panic(m) => (fail(m), fail(m), fail(m)),
         OpResult::Budget(_) => (fail("budget"), fail("budget"), fail("budget")),
     };
-    PointsObs { poisson, nearest_one, nearest_k, within, p_nearest_one, p_nearest_k, p_within }
+    let sizes = match (&tree, &partial) {
+        (OpResult::Done(t), OpResult::Done(p)) => Some([(t.len(), t.is_empty()), (p.len(), p.is_empty())]),
+        _ => None,
+    };
+    PointsObs { poisson, nearest_one, nearest_k, within, p_nearest_one, p_nearest_k, p_within, sizes }
 }
 
 impl Property for C15 {
@@ -929,6 +935,12 @@ impl Property for C15 {
                                     stats.bump("probe:poisson-kept-proper-subset");
                                 }
                             }
+                        }
+                    }
+                    if let Some(s) = &o.sizes {
+                        stats.bump("companion:kd-len");
+                        if s[0] != (pts.len(), pts.is_empty()) || s[1] != (subset.len(), subset.is_empty()) {
+                            out.push(Violation::new("kd-wrong-count", "KdTree::len", format!("len/is_empty report {:?} for {} points and a subset of {}", s, pts.len(), subset.len()), &[vi]));
                         }
                     }
                     let universe: Vec<usize> = (0..pts.len()).collect();
